@@ -52,7 +52,13 @@ type Solver struct {
 	LastError string
 	mu        sync.Mutex
 	seq       int
+	// Transcript accumulates everything sent since the last ResetTranscript
+	// (used to dump stand-alone scripts of queries that came back unknown).
+	Transcript   strings.Builder
+	KeepScript   bool
 }
+
+func (s *Solver) ResetTranscript() { s.Transcript.Reset() }
 
 func Start(kind Kind, timeoutMS int) (*Solver, error) {
 	s := &Solver{Kind: kind, TimeoutMS: timeoutMS}
@@ -129,6 +135,9 @@ func (s *Solver) Restart() error {
 func (s *Solver) Send(text string) {
 	if s.Log != nil {
 		io.WriteString(s.Log, text)
+	}
+	if s.KeepScript {
+		s.Transcript.WriteString(text)
 	}
 	io.WriteString(s.in, text)
 }
